@@ -212,6 +212,11 @@ class UnionSchemaGen:
         """records defined once and referred to by name from several unions"""
         rng = self.rng
         a, b = self.overlap_record(), self.overlap_record()
+        # a union with NAMED branches nested inside the record that is later reached by name (reader options must survive)
+        en = self.fullname(self.fresh("E"))
+        en.update(type="enum", symbols=["A", "B"])
+        inner = {"type": "record", "name": self.fresh("I"), "fields": [{"name": "k", "type": "int"}]}
+        a["fields"].append({"name": "nu", "type": ["null", en, inner], "default": None})
         outer = self.fullname(self.fresh("O"))
         ns = outer.get("namespace") or (outer["name"].rsplit(".", 1)[0] if "." in outer["name"] else "")
 
